@@ -134,10 +134,58 @@ Proof. exact dispatch_handled. Qed.
 Theorem c04_dispatch_complete : forall tbl, table_ok tbl = true -> forall f l r,
   exists t, In t tbl /\ t_form t = f /\ t_l t = l /\ t_r t = r /\ t_alias t = false.
 Proof. exact dispatch_complete. Qed.
+(** In-place variants (round 4).  For an accepted table, `l @= r` on a supported pair returns a value; when the class of
+    [l] is mutable (Vec, Angle, Matrix) the object returned is the receiver itself and the receiver's final value is the
+    specification product, so every alias of it holds the product; when it is frozen or a tuple the result is a new object
+    and the receiver keeps its value. *)
+Theorem c04_inplace_stores_into_self : forall atan2 tbl, table_ok tbl = true -> forall t, In t tbl ->
+  t_form t = FImatmul -> expected (t_l t) (t_r t) (t_alias t) <> None ->
+  exists c i v fl fr, t_out t = OValue c i v fl fr /\
+    i = (if mutable (t_l t) then IdL else IdFresh) /\
+    forall L R, well_kinded (kind_of (t_l t)) L -> well_kinded (kind_of (t_r t)) R -> (t_alias t = true -> R = L) ->
+      denote atan2 L R v = spec atan2 L R /\ spec atan2 L R <> None /\
+      denote atan2 L R fl = (if mutable (t_l t) then spec atan2 L R else Some L).
+Proof. exact dispatch_inplace. Qed.
+(** ... and the in-place variant denotes the same value as the pure one: the rows of `l @ r` and `l @= r` return equal
+    values; `@` returns a new object and leaves its receiver alone; the mutable receiver of `@=` ends up holding exactly the
+    value `@` returns. *)
+Theorem c04_inplace_agrees_with_pure : forall atan2 tbl, table_ok tbl = true -> forall t1 t2, In t1 tbl -> In t2 tbl ->
+  t_form t1 = FMatmul -> t_form t2 = FImatmul -> t_l t1 = t_l t2 -> t_r t1 = t_r t2 -> t_alias t1 = t_alias t2 ->
+  expected (t_l t2) (t_r t2) (t_alias t2) <> None ->
+  exists c1 v1 fl1 fr1 c2 i2 v2 fl2 fr2,
+    t_out t1 = OValue c1 IdFresh v1 fl1 fr1 /\ t_out t2 = OValue c2 i2 v2 fl2 fr2 /\
+    i2 = (if mutable (t_l t2) then IdL else IdFresh) /\
+    forall L R, well_kinded (kind_of (t_l t2)) L -> well_kinded (kind_of (t_r t2)) R -> (t_alias t2 = true -> R = L) ->
+      denote atan2 L R v1 = denote atan2 L R v2 /\ denote atan2 L R fl1 = Some L /\
+      denote atan2 L R fl2 = (if mutable (t_l t2) then denote atan2 L R v1 else Some L).
+Proof. exact inplace_agrees_with_pure. Qed.
+(** The shape of seeded fault c04_5 / of the pinned `Angle @= FrozenMatrix`: a mutable receiver that falls back to the fresh
+    result of `@` (value right, receiver untouched) is rejected - as is a frozen receiver that is returned itself. *)
+Example c04_inplace_fallback_refuted :
+  let e := TToAngle (TMatMul (TFromAngle TL) TR) in
+  inplace_ok (Triple FImatmul CAngle CMatrix false (OValue CAngle IdFresh e TL TR)) = false /\
+  triple_ok (Triple FImatmul CAngle CMatrix false (OValue CAngle IdFresh e TL TR)) = true /\
+  inplace_ok (Triple FImatmul CAngle CMatrix false (OValue CAngle IdL e e TR)) = true /\
+  inplace_ok (Triple FImatmul CFrozenAngle CMatrix false (OValue CFrozenAngle IdL e e TR)) = false.
+Proof. repeat split. Qed.
 (** x @ Angle is x @ Matrix.from_angle(Angle). *)
 Theorem c04_angle_operand_is_from_angle : forall atan2 L a,
   spec atan2 L (VAng a) = spec atan2 L (VMat (from_angle_obj a)).
 Proof. exact spec_angle_is_from_angle. Qed.
+(** ... and not only over the reals: the two are the same computation.  For every interpretation of the table terms over
+    arbitrary carriers and operations (e.g. IEEE binary64 with the float from_angle / _to_angle / _mat_mul / _vec_rot), the
+    value of an accepted row with an Angle (Angle or FrozenAngle) on the right equals the value of the row with a Matrix on
+    the right at [from_angle] of the angle - bit for bit when the interpretation is the float one. *)
+Theorem c04_angle_operand_same_computation :
+  forall (GV GM GA : Type) (fa : GA -> GM) (ta : GM -> GA) (mm : GM -> GM -> GM) (mms : GM -> GM) (vr : GM -> GV -> GV)
+    tbl, table_ok tbl = true -> forall t1 t2, In t1 tbl -> In t2 tbl ->
+    t_form t1 = t_form t2 -> t_l t1 = t_l t2 -> kind_of (t_r t1) = KA -> kind_of (t_r t2) = KM ->
+    t_alias t1 = false -> t_alias t2 = false ->
+    forall c1 i1 v1 fl1 fr1 c2 i2 v2 fl2 fr2,
+      t_out t1 = OValue c1 i1 v1 fl1 fr1 -> t_out t2 = OValue c2 i2 v2 fl2 fr2 ->
+      forall L a, gdenote GV GM GA fa ta mm mms vr L (GAng GV GM GA a) v1
+                = gdenote GV GM GA fa ta mm mms vr L (GMat GV GM GA (fa a)) v2.
+Proof. exact angle_operand_same_computation. Qed.
 (** (v @ A) @ B = v @ (A @ B) for A a Matrix (exact) ... *)
 Theorem c04_mixed_assoc_matrix : forall atan2 v x B m, rhs_mat B = Some m ->
   spec atan2 (VMat x) B = Some (VMat (mat_mul x m)) /\
